@@ -78,6 +78,23 @@ def gate_dispatch(run, f, direction, rule='R11.gate'):
                 return _Sym('random', rec(nd.args[0]) if nd.args else None)
             if isinstance(fn, ast.Name) and fn.id == 'mask':
                 return _Sym('mask', *[rec(a) for a in nd.args[:2]])
+            if isinstance(fn, ast.Name) and fn.id in ('getattr', 'setattr') and len(nd.args) >= 2 and norm(nd.args[0]) == 'self':
+                # reflective access to a field of the gate whose name is a known string
+                fld = rec(nd.args[1])
+                if not isinstance(fld, str):
+                    raise Undecidable('call ' + norm(nd))
+                if fn.id == 'getattr':
+                    if fld in heap:
+                        return heap[fld]
+                    if len(nd.args) == 3:
+                        return rec(nd.args[2])
+                    raise Undecidable('attribute self.' + fld)
+                if len(nd.args) != 3:
+                    raise Undecidable('call ' + norm(nd))
+                v = rec(nd.args[2])
+                heap[fld] = v
+                state['stores'].append((fld, v, nd))
+                return None
             if isinstance(fn, ast.Attribute) and fn.attr in ('rotate_by', 'transform_by') and norm(fn.value) == obj:
                 args = [rec(a) for a in nd.args]
                 kw = {k.arg: rec(k.value) for k in nd.keywords}
